@@ -5,3 +5,14 @@ open MosnVerif.Props.C06
 #print axioms order_independent
 #print axioms select_total
 #print axioms spec_holds_on_model
+#print axioms edf_invariant_step
+#print axioms edf_invariant_reachable
+#print axioms edf_pick_minimal
+#print axioms wrr_weight_range
+#print axioms edf_window_bound
+#print axioms edf_spec_holds_on_model
+#print axioms heap_peek_min
+#print axioms heap_fix_root
+#print axioms heap_push
+#print axioms heap_scheduler_refines
+#print axioms wrr_lookup_window_bound
